@@ -138,36 +138,42 @@ func handleZADD(params internal.HandlerFuncParams) ([]byte, error) {
 		}
 	}
 
+	var set *SortedSet
 	if keyExists {
 		// Key exists
-		set, ok := params.GetValues(params.Context, []string{key})[key].(*SortedSet)
+		var ok bool
+		set, ok = params.GetValues(params.Context, []string{key})[key].(*SortedSet)
 		if !ok {
 			return nil, fmt.Errorf("value at %s is not a sorted set", key)
 		}
-		count, err := set.AddOrUpdate(members, updatePolicy, comparison, changed, incr)
-		if err != nil {
-			return nil, err
-		}
-		// If INCR option is provided, return the new score value,
-		// or nil when NX, XX, GT or LT prevented the increment.
-		if incr != nil {
-			if count == 0 {
-				return []byte("$-1\r\n"), nil
-			}
-			m := set.Get(members[0].Value)
-			return []byte(fmt.Sprintf("+%f\r\n", m.Score)), nil
-		}
-
-		return []byte(fmt.Sprintf(":%d\r\n", count)), nil
+	} else {
+		// Key does not exist: the options apply to an empty sorted set
+		set = NewSortedSet([]MemberParam{})
 	}
 
-	// Key does not exist.
-	set := NewSortedSet(members)
-	if err = params.SetValues(params.Context, map[string]interface{}{key: set}); err != nil {
+	count, err := set.AddOrUpdate(members, updatePolicy, comparison, changed, incr)
+	if err != nil {
 		return nil, err
 	}
 
-	return []byte(fmt.Sprintf(":%d\r\n", set.Cardinality())), nil
+	if !keyExists && set.Cardinality() > 0 {
+		// Only create the key when something was added (XX adds nothing to a new key)
+		if err = params.SetValues(params.Context, map[string]interface{}{key: set}); err != nil {
+			return nil, err
+		}
+	}
+
+	// If INCR option is provided, return the new score value,
+	// or nil when NX, XX, GT or LT prevented the increment.
+	if incr != nil {
+		if count == 0 {
+			return []byte("$-1\r\n"), nil
+		}
+		m := set.Get(members[0].Value)
+		return []byte(fmt.Sprintf("+%f\r\n", m.Score)), nil
+	}
+
+	return []byte(fmt.Sprintf(":%d\r\n", count)), nil
 }
 
 func handleZCARD(params internal.HandlerFuncParams) ([]byte, error) {
